@@ -114,6 +114,13 @@ func (whCtrl Controller) OpenReader(wareID api.WareID) (io.ReadCloser, error) {
 			Join(fs.MustRelPath(wareID.Hash))
 	}
 	file, err := os.OpenFile(finalPath.String(), os.O_RDONLY, 0)
+	if err == nil {
+		// A directory opens just fine, but it is no ware: whoever asked would take "it opens" for "it is there".
+		if st, err2 := file.Stat(); err2 == nil && st.IsDir() {
+			file.Close()
+			return nil, Errorf(rio.ErrWareNotFound, "ware %s not found in warehouse %s (a directory is in its place)", wareID, whCtrl.addr)
+		}
+	}
 	switch {
 	case err == nil:
 		return file, nil
